@@ -97,6 +97,9 @@ def run(rng, tier, deep):
     off = float(rng.uniform(0, 360))
     for k in range(nd):
         run_oracle(st, o_footprint_upwind, upwind_case(rng, wd=(off + k * 360.0 / nd) % 360.0))
+    # the four cardinal directions EXACTLY (0.0 is falsy in Python), 360.0, and a negative / wrapped equivalent
+    for wd in (0.0, 90.0, 180.0, 270.0, 360.0, -90.0, 450.0)[: (7 if (deep or tier == "thorough") else 5)]:
+        run_oracle(st, o_footprint_upwind, upwind_case(rng, wd=wd))
     return finish(st, "wind decomposition: speeds 0.1..20, directions incl. cardinals and out-of-range angles (correspondence 1e-13); "
                   "end-to-end: configs built with parse_config_dict, tower at the domain centre given by lat/lon, 48..64 cells, square and oblong, "
                   "all four closures, stable/neutral/unstable, ustar and z0 forcing, wind directions evenly covering [0,360); oracle: bearing of the "
